@@ -271,7 +271,17 @@ Definition step (s : ms) (r : list Z) : option ms :=
     if Z.eqb (fld r 2) 1 && Z.eqb (fld r 4) 0 && Z.eqb (fld r 5) 0 && Z.eqb (fld r 6) 0 && Z.eqb (m_ep_ok s) 2
     then Some (upd_data s (m_wr s) (m_rd s) (m_fin s) (m_reset s) (m_dg s) (m_closing s) (m_ep_ok s) true)
     else None
-  else if Z.eqb tg 29 || Z.eqb tg 31 || Z.eqb tg 35 || Z.eqb tg 38 then Some s
+  else if Z.eqb tg 31 then
+    (* an injected socket error (action 9) legitimately kills that connection; its peer can only time out *)
+    if Z.eqb (fld r 2) 9 then
+      Some (upd_data {| m_pend := m_pend s; m_tep := m_tep s; m_run := m_run s; m_self := m_self s; m_ops := m_ops s;
+                        m_snap := m_snap s; m_handles := m_handles s; m_stoplive := m_stoplive s; m_drvdead := m_drvdead s;
+                        m_wr := m_wr s; m_rd := m_rd s; m_fin := m_fin s; m_reset := m_reset s; m_dg := m_dg s;
+                        m_closing := true; m_ep_ok := m_ep_ok s; m_ended := m_ended s; m_known := m_known s;
+                        m_lossy := true; m_wall := m_wall s |}
+                     (m_wr s) (m_rd s) (m_fin s) (m_reset s) (m_dg s) true (m_ep_ok s) (m_ended s))
+    else Some s
+  else if Z.eqb tg 29 || Z.eqb tg 35 || Z.eqb tg 38 then Some s
   else None.
 
 Definition monitor (i : ops) (tr : outs) : option Z :=
